@@ -121,6 +121,23 @@ theorem lmaxFrom_scale (c : ℝ) (hc : 0 ≤ c) (m : ℝ) (l : List ℝ) :
     · have h' : ¬ c * m < c * x := not_lt.2 (mul_le_mul_of_nonneg_left (not_lt.1 h) hc)
       rw [if_neg h', if_neg h, ih]
 
+/-! ## chirp -/
+
+theorem chirp_scale (g fs f0 f1 sf : ℝ) (w : List ℝ) :
+    chirp fs f0 f1 (g * sf) w = (chirp fs f0 f1 sf w).map (g * ·) := by
+  simp only [chirp, List.map_zipWith]
+  congr 1
+  funext a b
+  ring
+
+/-- `w /= util.rms(w)`: the chirp's envelope has RMS exactly 1 -/
+theorem rmsL_normalized (w : List ℝ) (hw : rmsL w ≠ 0) : rmsL (w.map (· / rmsL w)) = 1 := by
+  have hr : 0 < rmsL w := lt_of_le_of_ne (by rw [rmsL_real]; exact Real.sqrt_nonneg _) (Ne.symm hw)
+  have e : w.map (· / rmsL w) = w.map ((1 / rmsL w) * ·) := by
+    apply List.map_congr_left; intro v _; ring
+  rw [e, rmsL_scale, abs_of_pos (by positivity)]
+  field_simp
+
 /-! ## band-limited click -/
 
 theorem csdToSignal_smul (g : ℝ) (m : ℕ) (c : ℕ → Cx ℝ) (j : ℕ) :
